@@ -30,7 +30,7 @@ var aliasVars = map[types.Object]bool{}
 
 // pureGetters are methods without arguments that only read their receiver.
 var pureGetters = map[string]bool{
-	"reflect.Value.Kind": true, "reflect.Type.Kind": true, "reflect.Value.Type": true, "reflect.Value.Len": true, "reflect.Value.NumField": true,
+	"reflect.Value.Kind": true, "reflect.Type.Kind": true, "reflect.Value.Elem": true, "reflect.Type.Elem": true, "reflect.Value.Type": true, "reflect.Value.Len": true, "reflect.Value.NumField": true,
 	"reflect.Type.NumField": true, "reflect.Value.IsNil": true, "reflect.Value.IsValid": true, "reflect.Value.CanSet": true,
 	"github.com/google/uuid.UUID.Version": true,
 	"workflow.Plan.Type":                  true, "workflow.Block.Type": true, "workflow.Checks.Type": true, "workflow.Sequence.Type": true, "workflow.Action.Type": true,
@@ -104,6 +104,9 @@ func (c *canon) stmt(s ast.Stmt) ast.Stmt {
 		}
 		if sw := c.ifChainToSwitch(x); sw != nil {
 			return sw
+		}
+		if ts := c.commaOkToTypeSwitch(x); ts != nil {
+			return ts
 		}
 	case *ast.ForStmt:
 		if x.Cond != nil {
@@ -452,6 +455,70 @@ func (c *canon) ifChainToSwitch(first *ast.IfStmt) ast.Stmt {
 		sw.Body.List = append(sw.Body.List, &ast.CaseClause{Case: def.Lbrace, List: nil, Colon: def.Lbrace, Body: def.List})
 	}
 	return sw
+}
+
+// T: `if x, ok := E.(T); ok { A } else { B }` becomes `switch x := E.(type) { case T: A; default: B }`
+// (ok must not be read in A or B).
+func (c *canon) commaOkToTypeSwitch(is *ast.IfStmt) ast.Stmt {
+	init, ok := is.Init.(*ast.AssignStmt)
+	if !ok || init.Tok != token.DEFINE || len(init.Lhs) != 2 || len(init.Rhs) != 1 {
+		return nil
+	}
+	ta, ok := ast.Unparen(init.Rhs[0]).(*ast.TypeAssertExpr)
+	if !ok || ta.Type == nil {
+		return nil
+	}
+	xid, ok1 := init.Lhs[0].(*ast.Ident)
+	okid, ok2 := init.Lhs[1].(*ast.Ident)
+	if !ok1 || !ok2 || xid.Name == "_" {
+		return nil
+	}
+	okObj := c.info.Defs[okid]
+	if okObj == nil || ObjOf(c.info, is.Cond) != okObj {
+		return nil
+	}
+	if hasFreeBreak(is.Body.List) {
+		return nil
+	}
+	used := false
+	check := func(n ast.Node) {
+		if n == nil {
+			return
+		}
+		ast.Inspect(n, func(m ast.Node) bool {
+			if id, ok := m.(*ast.Ident); ok && c.info.Uses[id] == okObj {
+				used = true
+			}
+			return !used
+		})
+	}
+	check(is.Body)
+	var def *ast.BlockStmt
+	switch e := is.Else.(type) {
+	case nil:
+	case *ast.BlockStmt:
+		if hasFreeBreak(e.List) {
+			return nil
+		}
+		check(e)
+		def = e
+	default:
+		return nil
+	}
+	if used {
+		return nil
+	}
+	assign := &ast.AssignStmt{Lhs: []ast.Expr{xid}, TokPos: init.TokPos, Tok: token.DEFINE,
+		Rhs: []ast.Expr{&ast.TypeAssertExpr{X: ta.X, Lparen: ta.Lparen, Type: nil, Rparen: ta.Rparen}}}
+	cc := &ast.CaseClause{Case: is.If, List: []ast.Expr{ta.Type}, Colon: is.Body.Lbrace, Body: is.Body.List}
+	if o := c.info.Defs[xid]; o != nil {
+		c.info.Implicits[cc] = o
+	}
+	ts := &ast.TypeSwitchStmt{Switch: is.If, Assign: assign, Body: &ast.BlockStmt{Lbrace: is.Body.Lbrace, List: []ast.Stmt{cc}, Rbrace: is.End()}}
+	if def != nil {
+		ts.Body.List = append(ts.Body.List, &ast.CaseClause{Case: def.Lbrace, Colon: def.Lbrace, Body: def.List})
+	}
+	return ts
 }
 
 // ---------------------------------------------------------------------------------------------
